@@ -186,6 +186,14 @@ class Fn:
                 if al not in env:
                     _fail(n, "alias target %s unknown" % al)
                 return (env[al][0], env[al][1])
+        # [C01] spec option "call_alias": a fixed call expression (compared as ast.unparse text, e.g. `arange(*col_range, **x_kwargs)`
+        # read element-wise) stands for a declared name.  Off by default: no effect on other specs.
+        if self.spec.get("call_alias") and isinstance(n, ast.Call):
+            al = self.spec["call_alias"].get(ast.unparse(n))
+            if al is not None:
+                if al not in env:
+                    _fail(n, "alias target %s unknown" % al)
+                return (env[al][0], env[al][1])
         # [C09] spec option "np_methods": `a[..., i, j]` on a declared array record gathers one element
         if self.spec.get("np_methods") and isinstance(n, ast.Subscript) and isinstance(n.slice, ast.Tuple) \
                 and len(n.slice.elts) == 3 and isinstance(n.slice.elts[0], ast.Constant) and n.slice.elts[0].value is Ellipsis:
@@ -696,6 +704,14 @@ class Fn:
             if self.err is None:
                 _fail(s, "raise without an error value in the spec")
             return self.err
+        if self.spec.get("monadic") and isinstance(s, ast.Assign) and len(s.targets) == 1 and isinstance(s.value, ast.Call):
+            rc = self.res_call(s.value, env)      # [C13]
+            if rc is not None:
+                how, txt, rt = rc
+                pat, env2 = self.bind(s.targets[0], (txt, rt), env, s)
+                if how == "static":
+                    return "let %s := %s in\n%s" % (pat, txt, self.block(rest, env2, rtype))
+                return "bind %s (fun %s =>\n%s)" % (txt, pat, self.block(rest, env2, rtype))
         if isinstance(s, ast.Assign):
             if len(s.targets) != 1:
                 _fail(s, "chained assignment")
@@ -756,6 +772,8 @@ class Fn:
             pat, env2 = self.bind(s.target, tx, env, s)
             return "let %s := %s in\n%s" % (pat, tx[0], self.block(rest, env2, rtype))
         if isinstance(s, ast.If):
+            if self.spec.get("monadic"):      # [C13]
+                s = ast.copy_location(ast.If(test=self.reduce_static(s.test, env), body=s.body, orelse=s.orelse), s)
             sc = self.static_cond(s.test, env)
             if sc is not None:     # [C14] decided by the declared kinds: translate the live branch only
                 return self.block(list(s.body if sc else s.orelse) + rest, env, rtype)
@@ -763,6 +781,9 @@ class Fn:
             if c[1] == 'F' and self.spec.get("float_truthiness"):
                 # [C03] spec option "float_truthiness" (off by default): `if x:` on a float is `x != 0` (NaN is true)
                 c = ("(negb (eqb OP %s (ofZ OP 0)))" % c[0], 'B')
+            if c[1] == 'Z' and self.spec.get("int_truthiness"):
+                # [C15] spec option "int_truthiness" (off by default): `if n:` on a Python int is `n != 0`
+                c = ("(negb (%s =? 0))" % c[0], 'B')
             if c[1] != 'B':
                 _fail(s, "condition of type %s" % (c[1],))
             if self.returns(s.body):
@@ -896,7 +917,70 @@ class Fn:
         _fail(node, "return type %s, expected %s" % (tx[1], rtype))
 
     def wrap_ok(self, txt):
+        if self.spec.get("monadic"):      # [C13] the function returns `res _`: a value is `Ok v`, a raise is the spec's "error"
+            return "(Ok %s)" % txt
         return ("(Some %s)" % txt) if self.spec.get("option_result") else txt
+
+    # [C13] ----- spec option "monadic" (off by default) with "res_calls": {python callee: [overload, ...]}.
+    # A statement `target = callee(args, kw=...)` whose callee may raise is translated to
+    #     bind (<coq> <args>) (fun target => <rest>)
+    # An overload is {"args": [pattern, ...], "kw": [names], "coq": text, "ret": type} and is selected by the KINDS of the
+    # actual arguments: pattern "_" = not looked at and not passed on; ["K", "text"] = that string literal; any other
+    # pattern = the argument's type.  {"value": "tt"} / {"value": "arg<i>"} instead of "coq": the call is known to return
+    # None / its i-th argument for these kinds (the callee's own specialisation is translated separately).
+    def res_call(self, n, env):
+        name = self.callname(n.func)
+        overloads = self.spec.get("res_calls", {}).get(name)
+        if overloads is None:
+            return None
+        if any(k.arg is None for k in n.keywords):
+            _fail(n, "**kwargs in call to %s" % name)
+        kws = sorted(n.keywords, key=lambda k: k.arg)
+        actual = list(n.args) + [k.value for k in kws]
+        for ov in overloads:
+            pats = ov["args"]
+            if sorted(ov.get("kw", [])) != [k.arg for k in kws] or len(pats) != len(actual):
+                continue
+            vals, ok = [], True
+            for a, pt in zip(actual, pats):
+                if pt == "_":
+                    vals.append(None)
+                elif isinstance(pt, list) and pt and pt[0] == "K":
+                    if not (isinstance(a, ast.Constant) and a.value == pt[1]):
+                        ok = False
+                        break
+                    vals.append(None)
+                else:
+                    try:
+                        tx = self.expr(a, env)
+                    except Untranslatable:
+                        ok = False
+                        break
+                    if tx[1] != _tup(pt):
+                        ok = False
+                        break
+                    vals.append(None if pt == "N" else tx)      # a None argument selects the overload, it is not passed on
+            if not ok:
+                continue
+            if "value" in ov:
+                if ov["value"] == "tt":
+                    return ("static", "tt", 'N')
+                tx = vals[int(ov["value"][3:])]
+                if tx is None:
+                    _fail(n, "res_calls: value refers to an argument that is not evaluated")
+                return ("static", tx[0], tx[1])
+            self.uses_T = True
+            txt = "(%s%s)" % (ov["coq"], "".join(" " + v[0] for v in vals if v is not None))
+            return ("bind", txt, _tup(ov["ret"]))
+        _fail(n, "call to %s: no declared overload for these argument kinds" % name)
+
+    def reduce_static(self, test, env):
+        """[C13] `a and b`: operands decided True by the declared kinds are dropped (a False one decides the whole test)."""
+        if isinstance(test, ast.BoolOp) and isinstance(test.op, ast.And):
+            keep = [v for v in test.values if self.static_cond(v, env) is not True]
+            if keep and len(keep) < len(test.values):
+                return keep[0] if len(keep) == 1 else ast.copy_location(ast.BoolOp(op=ast.And(), values=keep), test)
+        return test
 
     def translate(self):
         spec = self.spec
@@ -1637,6 +1721,106 @@ def slice_test(fdef, opt):
     return ast.fix_missing_locations(new)
 
 
+# [C12] ----- spec option "state_prepass": methods that read/write memoised state on `self` or feed a hashlib object.
+# A fail-closed source-to-source rewrite into the loop-free functional subset, applied before translation:
+#   "opaque":  {"<expr text>": ["fn", ["name", ...]]}   an expression matched by its exact `ast.unparse` text becomes the
+#              call fn(name, ...) of a spec-declared function ("calls") on the listed local names.  Any edit of that
+#              expression in the source makes the match fail, hence the translation (the tie is then reported broken).
+#   "setters": {"<obj>": {"<attr>": "fn"}}              `obj.attr = e` becomes `obj = fn(obj, e)` (state passing)
+#   "rebind":  {"<statement text>": "name"}             an expression statement that updates `name` in place and returns
+#              it (hashlib's update protocol of update_hash / hash_dict) becomes `name = <that expression>`
+#   "is_none": "fn"                                     `x is None` -> fn(x); `x is not None` -> not fn(x)
+#   "none":    "fn"                                     the constant None as a value -> the call fn() of a declared constant
+#   "return_state": "obj"                               `return e` -> `return (obj, e)`; a body that falls off its end
+#              returns obj
+class _StatePrepass(ast.NodeTransformer):
+    def __init__(self, opt):
+        self.opt = opt
+        self.used = set()
+
+    def _opaque(self, node):
+        tab = self.opt.get("opaque", {})
+        txt = ast.unparse(node)
+        if txt in tab:
+            fn, names = tab[txt]
+            self.used.add(txt)
+            return ast.Call(func=ast.Name(id=fn, ctx=ast.Load()), args=[ast.Name(id=x, ctx=ast.Load()) for x in names], keywords=[])
+        return None
+
+    def visit(self, node):
+        if isinstance(node, ast.expr):
+            rep = self._opaque(node)
+            if rep is not None:
+                return ast.copy_location(rep, node)
+        return super().visit(node)
+
+    def visit_Compare(self, node):
+        fn = self.opt.get("is_none")
+        if fn and len(node.ops) == 1 and isinstance(node.ops[0], (ast.Is, ast.IsNot)) \
+                and isinstance(node.comparators[0], ast.Constant) and node.comparators[0].value is None:
+            call = ast.Call(func=ast.Name(id=fn, ctx=ast.Load()), args=[self.visit(node.left)], keywords=[])
+            out = call if isinstance(node.ops[0], ast.Is) else ast.UnaryOp(op=ast.Not(), operand=call)
+            return ast.copy_location(out, node)
+        return self.generic_visit(node)
+
+    def visit_Constant(self, node):
+        if node.value is None and self.opt.get("none"):
+            return ast.copy_location(ast.Call(func=ast.Name(id=self.opt["none"], ctx=ast.Load()), args=[], keywords=[]), node)
+        return node
+
+    def visit_Assign(self, node):
+        if len(node.targets) == 1 and isinstance(node.targets[0], ast.Attribute) and isinstance(node.targets[0].value, ast.Name):
+            obj, attr = node.targets[0].value.id, node.targets[0].attr
+            fn = self.opt.get("setters", {}).get(obj, {}).get(attr)
+            if fn is None:
+                raise Untranslatable("state_prepass: no setter declared for %s.%s" % (obj, attr))
+            call = ast.Call(func=ast.Name(id=fn, ctx=ast.Load()), args=[ast.Name(id=obj, ctx=ast.Load()), self.visit(node.value)], keywords=[])
+            return ast.copy_location(ast.Assign(targets=[ast.Name(id=obj, ctx=ast.Store())], value=call), node)
+        node.value = self.visit(node.value)
+        return node
+
+    def visit_Expr(self, node):
+        if isinstance(node.value, ast.Constant) and isinstance(node.value.value, str):
+            return node
+        txt = ast.unparse(node.value)
+        tgt = self.opt.get("rebind", {}).get(txt)
+        if tgt is None:
+            raise Untranslatable("state_prepass: expression statement %r is not declared in rebind" % txt)
+        self.used.add("rebind:" + txt)
+        return ast.copy_location(ast.Assign(targets=[ast.Name(id=tgt, ctx=ast.Store())], value=self.visit(node.value)), node)
+
+    def visit_Return(self, node):
+        st = self.opt.get("return_state")
+        if node.value is not None:
+            node.value = self.visit(node.value)
+        if st and node.value is not None:
+            node.value = ast.Tuple(elts=[ast.Name(id=st, ctx=ast.Load()), node.value], ctx=ast.Load())
+        return node
+
+
+def state_prepass(fdef, opt):
+    tr = _StatePrepass(opt)
+    new_body = []
+    for st in fdef.body:
+        r = tr.visit(st)
+        new_body.append(r)
+    if opt.get("return_state") and not Fn.returns(new_body):
+        new_body.append(ast.Return(value=ast.Name(id=opt["return_state"], ctx=ast.Load())))
+    # fail closed: every declared opaque expression / rebind statement must occur (a source edit that removes one is noticed)
+    for txt in opt.get("opaque", {}):
+        if txt not in tr.used:
+            raise Untranslatable("state_prepass: declared expression %r does not occur in the source" % txt)
+    for txt in opt.get("rebind", {}):
+        if "rebind:" + txt not in tr.used:
+            raise Untranslatable("state_prepass: declared statement %r does not occur in the source" % txt)
+    out = ast.FunctionDef(name=fdef.name, args=fdef.args, body=new_body, decorator_list=[], returns=None, type_comment=None)
+    ast.copy_location(out, fdef)
+    out.end_lineno = fdef.end_lineno
+    ast.fix_missing_locations(out)
+    return out
+
+
+
 def translate_module(repo, modname, mod):
     """mod: {"functions": [spec...], "generic": bool}. Returns Coq text."""
     out = ["(* GENERATED by tools/py2coq.py from the current /repo working tree -- do not edit. *)",
@@ -1669,6 +1853,11 @@ def translate_module(repo, modname, mod):
             fdef = slice_vars(fdef, spec["slice_vars"])
         if spec.get("slice_mask"):  # [C02] off by default: no effect on other specs
             fdef, spec = slice_mask(fdef, spec)
+        if spec.get("shared_protocol"):  # [C15] off by default: no effect on other specs (tools/py2coq_c15.py)
+            from py2coq_c15 import shared_protocol
+            fdef = shared_protocol(fdef, spec["shared_protocol"], Untranslatable)
+        if spec.get("state_prepass"):   # [C12] off by default: no effect on other specs
+            fdef = state_prepass(fdef, spec["state_prepass"])
         fn = Fn(spec, fdef)
         try:
             text = fn.translate()
